@@ -63,6 +63,49 @@ Theorem C09_send_always_enabled : forall s c, closed s = false ->
 Proof. intros s c H. split; [exact (send_enabled s c H)|exact (send_keeps_open s c H)]. Qed.
 Print Assumptions C09_send_always_enabled.
 
+(* The size dimension.  Nothing above has a hypothesis on how much is pending; said outright:
+   (1) the stage has NO capacity -- for every n and every n changes to n DIFFERENT ids (any kinds and
+       values, no validity hypothesis) sent with no receive in between: every Send is taken, all n
+       are held in arrival order, and n receives then deliver exactly these changes, in order,
+       unmerged ("memory proportional to one change for each id that has not been emitted yet", and
+       not a change less: a stage that hands over the oldest before taking more once k ids are
+       pending is not this model for any k);
+   (2) so a backlog of every length n is reachable, by a valid script;
+   (3) and from EVERY open state -- whatever its backlog -- every Send of every further sequence of
+       sends and receives is taken.
+   The tie to the code at sizes no small id alphabet reaches: single-action sequences and public-API
+   bursts that leave 600..2000 (thorough: up to 4000) different ids pending (tags merge:size,
+   api:coll-big), and the source fact KSrc: the goroutine parks nowhere but in a receive from its
+   input or in a select that has such a case (C09Judge.src_receptive). *)
+From SC Require Import Excess.SizeProofs.
+
+Theorem C09_no_capacity_limit : forall cs, NoDup (map cid cs) ->
+  let '(s', os) := m_run m_init (map Send cs) in
+  os = repeat OSent (List.length cs) /\ closed s' = false /\
+  queue s' = map cid cs /\ pending s' = cs /\
+  let '(s'', os') := m_run s' (repeat Recv (List.length cs)) in
+  os' = map OGot cs /\ queue s'' = [] /\ snd (m_step s'' Recv) = ONothing.
+Proof. exact burst_all_held. Qed.
+Print Assumptions C09_no_capacity_limit.
+
+Theorem C09_backlog_of_every_length_reachable : forall n, exists l s os,
+  m_run m_init l = (s, os) /\ closed s = false /\ List.length (queue s) = n /\
+  List.length (pending s) = n /\ no_close l = true /\ valid_script (sent_of l) empty_view = true.
+Proof. exact backlog_of_every_length_reachable. Qed.
+Print Assumptions C09_backlog_of_every_length_reachable.
+
+Theorem C09_sends_taken_whatever_the_backlog : forall n s l, closed s = false -> List.length (queue s) = n ->
+  no_close l = true ->
+  forall k c, nth_error l k = Some (Send c) -> nth_error (snd (m_run s l)) k = Some OSent.
+Proof. intros n s l Ho _ Hc. exact (sends_taken_from_any_state l s Ho Hc). Qed.
+Print Assumptions C09_sends_taken_whatever_the_backlog.
+
+Example C09_no_capacity_limit_nonvacuous :
+  let cs := map add_of (map Z.of_nat (seq 0 700)) in
+  NoDup (map cid cs) /\ List.length (queue (fst (m_run m_init (map Send cs)))) = 700%nat /\
+  snd (m_step (fst (m_run m_init (map Send cs))) (Send (add_of 700))) = OSent.
+Proof. split; [apply seq_ids_nodup|]. vm_compute. auto. Qed.
+
 (* an add followed by a remove cancels out (in any reachable state with nothing pending for the id) *)
 Theorem C09_add_remove_cancels : forall s vr vs a b,
   Inv s vr vs -> msgs s (cid a) = None -> cid b = cid a ->
@@ -419,4 +462,80 @@ Example C09_nonvacuous_value_pipeline :
   option_map snd (v_run (fun _ _ => false) (v_init (Some 1)) [VPublish 2; VPublish 3; VRecv; VStep; VPublish 4; VRecv; VStep; VRecv])
     = Some [1; 3; 4] /\
   value_agrees_drained (fun _ _ => false) (Some 1) [VEPub 2; VEPub 3; VERecv 1; VEPub 4; VERecv 3; VERecv 4] = true.
+Proof. vm_compute. auto. Qed.
+
+(* ------------------------------------------------------------------------------------------ *)
+(* Value.set's send timeout around the backpressure pipeline (Excess/SendTimeout.v)            *)
+(* ------------------------------------------------------------------------------------------ *)
+From SC Require Import Excess.SendTimeout.
+
+(* "with backpressure ... a Value write whose event cannot be delivered within its five-second send
+   timeout returns an error instead of hanging".  The writer side of Value.set as a machine over
+   TSet m / THand / TTick / TTimeout / TRecv / TCancel around Pipeline.w_step; T = the timeout in
+   ticks (any T).  For EVERY run without a cancel -- any reader pace, any number of ticks, any
+   equivalence --: the writes return in the order they were made, one result each; what the
+   subscriber received ++ the seed if still pending ++ what the Pull loop holds = the seed followed
+   by what the Pull loop keeps of the writes that returned NIL.  So a write that returned an error
+   was never handed over, a write that returned nil was (a Set that reports success for an event
+   nobody was sent, or an error for one that was, is not this model); and nobody waits > T ticks. *)
+Theorem C09_timeout_results_exact : forall eqv T seed l s os,
+  no_tcancel l = true -> t_run eqv T (t_init seed) l = Some (s, os) ->
+  map res_val (results os) ++ match t_wait s with Some (m, _) => [m] | None => [] end = sets_of l /\
+  delivered os ++ olist (w_seed (t_pipe s)) ++ olist (w_pl (t_pipe s)) = olist seed ++ keep eqv seed (oks (results os)) /\
+  match t_wait s with Some (_, k) => (k <= T)%nat | None => True end.
+Proof. exact timeout_results_exact. Qed.
+Print Assumptions C09_timeout_results_exact.
+
+(* no hanging, and the reader plays no part: a waiting write returns an error after exactly the
+   remaining ticks by the clock and the deadline alone; the pipeline is untouched and the turnstile
+   is left, so the next Set can enter *)
+Theorem C09_timeout_write_never_hangs : forall eqv T s m k, t_wait s = Some (m, k) -> (k <= T)%nat ->
+  t_run eqv T s (repeat TTick (T - k) ++ [TTimeout]) =
+    Some (mkT (t_pipe s) None (t_gone s), repeat TNone (T - k) ++ [TRet (RErr m)]) /\
+  forall m', t_step eqv T (mkT (t_pipe s) None (t_gone s)) (TSet m') <> None.
+Proof. exact write_never_hangs. Qed.
+Print Assumptions C09_timeout_write_never_hangs.
+
+Theorem C09_timeout_wait_bounded : forall eqv T l s s' os m k, t_wait s = Some (m, k) ->
+  forallb (fun a => match a with TTick => true | _ => false end) l = true ->
+  t_run eqv T s l = Some (s', os) -> (k + List.length l <= T)%nat \/ (T < k)%nat.
+Proof. exact wait_bounded. Qed.
+Print Assumptions C09_timeout_wait_bounded.
+
+(* an error only once the deadline has passed; every return, nil or error, leaves the turnstile *)
+Theorem C09_timeout_error_only_after_deadline : forall eqv T s s' m,
+  t_step eqv T s TTimeout = Some (s', TRet (RErr m)) ->
+  exists k, t_wait s = Some (m, k) /\ (T <= k)%nat /\ t_pipe s' = t_pipe s /\ t_wait s' = None.
+Proof. exact error_only_after_deadline. Qed.
+Print Assumptions C09_timeout_error_only_after_deadline.
+
+Theorem C09_timeout_every_return_leaves_the_turnstile : forall eqv T s a s' r,
+  t_step eqv T s a = Some (s', TRet r) -> t_wait s' = None /\ forall m, t_step eqv T s' (TSet m) <> None.
+Proof. exact every_return_leaves_the_turnstile. Qed.
+Print Assumptions C09_timeout_every_return_leaves_the_turnstile.
+
+(* a reader that keeps up never causes a timeout: the hand-over is enabled exactly when the seed has
+   been taken and the Pull loop holds nothing *)
+Theorem C09_timeout_hand_over_enabled_iff : forall eqv T s m k, t_wait s = Some (m, k) -> t_gone s = false ->
+  (t_step eqv T s THand <> None <->
+   (w_cancel (t_pipe s) = false /\ w_seed (t_pipe s) = None /\ w_pl (t_pipe s) = None)).
+Proof. exact hand_over_enabled_iff. Qed.
+Print Assumptions C09_timeout_hand_over_enabled_iff.
+
+(* the oracle of the measured scenarios: an observation that agrees with the model's run passes it as
+   soon as the measured duration is inside the window (the one thing the model does not say) *)
+Theorem C09_judge_sound_timeout : forall resume errored ms later written got,
+  agrees (KApiTimeout resume errored ms later written got) = true ->
+  4000 <= ms <= 9000 ->
+  C09_ok (KApiTimeout resume errored ms later written got) = true.
+Proof. exact judge_sound_timeout. Qed.
+Print Assumptions C09_judge_sound_timeout.
+
+(* non-vacuity = the two scenarios the harness measures in both tiers (KApiTimeout; agrees compares
+   the observation with exactly these runs) *)
+Example C09_timeout_nonvacuous :
+  timeout_expected true = Some ([ROk 1; RErr 2; ROk 3; ROk 4], [1; 3]) /\
+  timeout_expected false = Some ([RErr 1; ROk 2], []) /\
+  (* ... and the hand-over of write 2 is indeed not enabled while the Pull loop holds write 1 *)
+  option_map snd (t_run noeq 5 (t_init None) [TSet 1; THand; TSet 2; THand]) = None.
 Proof. vm_compute. auto. Qed.
